@@ -26,6 +26,11 @@ type Options struct {
 	// OnPanic, if set, is told about a panicking accessor (counted by the
 	// caller as C04/C20 matter); the accessor's result is recorded as "panic".
 	OnPanic func(where string, r any)
+	// AllowOnly, for the type names it lists, restricts the methods that are
+	// called to the given set (an allow-list survives new accessors being added
+	// to the type; a deny-list does not). Exported fields of such a type are
+	// skipped.
+	AllowOnly map[string]map[string]bool
 	// NoFields skips exported struct fields (methods only).
 	NoFields bool
 	// Args, when set, synthesises arguments for methods that take one or two
@@ -45,6 +50,9 @@ var BaseDeny = map[string]bool{
 
 func (o *Options) denied(typ, method string) bool {
 	if BaseDeny["."+method] {
+		return true
+	}
+	if set, ok := o.AllowOnly[typ]; ok && !set[method] {
 		return true
 	}
 	if o.Deny == nil {
@@ -234,7 +242,7 @@ func dumpObject(sb *strings.Builder, pv reflect.Value, opt *Options, depth int, 
 	// the plain content first (byte arrays, named slices such as Integer)
 	switch et.Kind() {
 	case reflect.Struct:
-		if !opt.NoFields {
+		if _, restricted := opt.AllowOnly[name]; !opt.NoFields && !restricted {
 			for i := 0; i < et.NumField(); i++ {
 				if !et.Field(i).IsExported() || et.Field(i).Anonymous {
 					continue
